@@ -559,7 +559,37 @@ Section ExactMain.
         * destruct Hs as (Hri & _). apply refx_here. apply mem_pair_x_index. exact Hri.
         * subst oneo. unfold has in Hs. rewrite (gp_leaf _ _ _ _ _ _ _ _ _ _ _ _ _ _ _ Hs I). reflexivity.
         * destruct tg as [|tg|tg ct|].
-          4: { exfalso. clear - Hf. cbn [frag_kind] in Hf. apply andb_true_iff in Hf. destruct Hf as [_ Hp]. discriminate Hp. }
+          4: { (* untagged over non-null scalar arms: no null branch, no common tag *)
+            destruct Hs as (n & vs & deny & bes & names & ids & Hd & Hnames & Hndn & Hv & Hraw & Hident & Hbr).
+            unfold has in Hd. cbn [union_x]. rewrite Hd. cbn [wrapper_of].
+            cbn [frag_kind] in Hf. rewrite Hnames in Hf.
+            apply andb_true_iff in Hf. destruct Hf as [Hf _].
+            apply andb_true_iff in Hf. destruct Hf as [Hf _]. apply andb_true_iff in Hf. destruct Hf as [_ Hbok].
+            cbn [branches_ok] in Hbok. destruct (opt_all_map scalar_arm bs) as [tys|] eqn:Harms; [|discriminate].
+            apply andb_true_iff in Hbok. destruct Hbok as [Hbok Hsk].
+            apply andb_true_iff in Hbok. destruct Hbok as [Hbok _]. apply andb_true_iff in Hbok. destruct Hbok as [Hnonull _].
+            assert (Harm : forall b, In b bs -> exists t0, scalar_arm b = Some t0 /\ In t0 tys).
+            { clear - Harms. revert tys Harms. induction bs as [|b0 r IH]; intros tys H b Hb; [destruct Hb|].
+              cbn [opt_all_map] in H. destruct (scalar_arm b0) as [t0|] eqn:E0; [|discriminate].
+              destruct (opt_all_map scalar_arm r) as [rest|]; [|discriminate]. injection H as <-.
+              destruct Hb as [<-|Hb]; [exists t0; split; [exact E0|left; reflexivity]|].
+              destruct (IH rest eq_refl b Hb) as (t1 & H1 & H2). exists t1. split; [exact H1|right; exact H2]. }
+            assert (H1 : no_null bs = true).
+            { unfold no_null. apply negb_true_iff. apply Bool.not_true_is_false. intro Hex.
+              apply existsb_exists in Hex. destruct Hex as (b & Hb & Hnull).
+              destruct (Harm b Hb) as (t0 & Ht0 & Hin).
+              assert (t0 = TNull).
+              { unfold scalar_arm in Ht0. unfold null_only in Hnull. destruct_matches Hnull. destruct_matches Ht0; try discriminate Hnull.
+                all: try (destruct (_ && _); [|discriminate]); try (destruct (strv_is_none _); [|discriminate]);
+                  injection Ht0 as <-; reflexivity. }
+              subst t0. apply negb_true_iff in Hnonull.
+              assert (existsb (itype_eqb TNull) tys = true); [|congruence].
+              apply existsb_exists. exists TNull. split; [exact Hin|reflexivity]. }
+            assert (H2 : common_tag bs = None).
+            { destruct bs as [|b0 r]; [reflexivity|]. unfold common_tag.
+              destruct (Harm b0 (or_introl eq_refl)) as (t0 & Ht0 & _). unfold scalar_arm in Ht0. destruct_matches Ht0.
+              all: reflexivity. }
+            rewrite H1, H2. reflexivity. }
           2: { (* internally tagged *)
             destruct Hs as (n & vs & deny & bes & names & ids & Hd & Hnames & Hndn & Hv & Hraw & Hident & Hbr).
             unfold has in Hd. cbn [union_x]. rewrite Hd. cbn [wrapper_of].
